@@ -73,6 +73,8 @@ func stringMapGlobal(p *Prog, pkg, name string) (map[string]string, token.Pos, b
 }
 
 func runC19(c *Ctx) {
+	insideWorkTreeNeedsSeparator(c, "R4")
+	macroExpandsOnlyWhenSet(c, "R5")
 	p := c.P
 	trackMapKeys(c, "R4")
 	blocklistLooksAtBaseName(c, "R5")
